@@ -3,7 +3,20 @@ import gen
 from vlib import *
 
 LEVEL = "proof"
-THEOREMS = ["other_key_empty"]
+THEOREMS = [
+    # T5 invariant (all op sequences), association lists are maps
+    "inv_preserved", "inv_reachable", "reachable_facts", "keys_unique", "skip_iff_same_map",
+    # T1 refinement of the abstract versioned key-value map (Spec / astep)
+    "refines", "refines_all", "disk_is_last_saved_build", "saved_unchanged", "spec_put", "spec_reopen",
+    # T4 skip-write shortcut (+ the literal disk equality that does NOT hold)
+    "skip_write_sound", "skip_write_disk_eq_false",
+    # sentence 1: reopen with the same key
+    "reopen_same_key", "reopen_same_key_payloads",
+    # sentence 2: other key / other schema
+    "other_key_empty", "other_schema_empty", "reopen_other_key", "reopen_other_schema",
+    # sentence 3 (T3): GC
+    "gc_keeps_referenced", "gc_removes_unreferenced", "save_keeps_next_blobs",
+]
 
 
 def run(ctx):
